@@ -58,7 +58,7 @@ void h_qltlv(void) {
     common_setup(0);
     g_class = CL_QLTLV;
     V_ASSUME(is_disc_tos(in.frame[F_TOS]) && in.frame[F_OP] == opcode_queryLargeTlv);
-    V_ASSUME(from_mapper_or_none());
+    bool dom05 = from_mapper_or_none();      /* C05's domain; C08 itself holds for any requester */
 #ifdef QTYPE
     in.frame[32] = QTYPE; RX[32] = QTYPE;      /* concrete type byte: symex follows one switch arm only */
 #endif
@@ -98,7 +98,7 @@ void h_qltlv(void) {
         V_ASSERT(ST->mapper_seq == seq, "C08: request's sequence number remembered");
         if (!in.st.known) V_ASSERT(ST->mapper_known == 1 && mac6_eq(ST->mapper_real.a, in.frame + F_RSRC) && mac6_eq(ST->mapper_apparent.a, in.frame + F_ESRC),
                                    "C05: a QueryLargeTlv that opens the session makes its real source the mapper and its Ethernet source the apparent mapper");
-        else V_ASSERT(ST->mapper_known == 1 && mac6_eq(ST->mapper_real.a, in.st.mreal) && mac6_eq(ST->mapper_apparent.a, in.st.mapp), "C05: a QueryLargeTlv from the active mapper leaves the mapper unchanged");
+        else if (dom05) V_ASSERT(ST->mapper_known == 1 && mac6_eq(ST->mapper_real.a, in.st.mreal) && mac6_eq(ST->mapper_apparent.a, in.st.mapp), "C05: a QueryLargeTlv from the active mapper leaves the mapper unchanged");
         bool newly_cached = (q_type == 0x0E) && !had_cache && !g_plat.icon_fail;
         V_ASSERT(g_live_blocks == live0 + (newly_cached ? 1 : 0), "C19: fetched name / hardware id released, only the icon is kept (cached) after a QueryLargeTlv");
         if (q_type == 0x0E && (had_cache || newly_cached)) V_ASSERT(ST->small_icon != 0, "C08: icon cached for the session");
